@@ -555,6 +555,18 @@ func (g *hlGen) build(kind string, ev *eval.BlockEvaluator) []*txntest.Txn {
 			return nil
 		}
 		snd := hs[r.Intn(len(hs))]
+		if r.Bool() {
+			// prefer a holder that actually has units, so that non-zero movements happen
+			var rich []basics.Address
+			for _, ha := range hs {
+				if hh, ok := m.assetHold[hlRes{ha, basics.CreatableIndex(a.idx)}].at(rnd); ok && hh.Amount > 0 {
+					rich = append(rich, ha)
+				}
+			}
+			if len(rich) > 0 {
+				snd = rich[r.Intn(len(rich))]
+			}
+		}
 		rcv := hs[r.Intn(len(hs))]
 		if kind == "ainvalid" || r.Chance(1, 8) {
 			rcv = g.anyAddr() // possibly not opted in
